@@ -38,6 +38,16 @@ func relSchemaPaths(f *fx.Fixture, at abs.Path, maxLen int, kinds map[string]boo
 	return out
 }
 
+func longPaths(all [][]string) [][]string {
+	var out [][]string
+	for _, p := range all {
+		if len(p) >= 3 {
+			out = append(out, p)
+		}
+	}
+	return out
+}
+
 func pick(r *rand.Rand, xs [][]string, n int) [][]string {
 	if len(xs) == 0 {
 		return [][]string{}
@@ -79,8 +89,16 @@ func randomParams(f *fx.Fixture, r *rand.Rand, at abs.Path, ordered bool) dread.
 		case 1:
 			p.Depth = 1 + r.Intn(4)
 		case 2:
-			if len(all) > 0 && r.Intn(2) == 0 {
+			if len(all) > 0 && r.Intn(3) == 0 {
 				p.Fields = siblings()
+			} else if long := longPaths(all); len(long) > 1 && r.Intn(2) == 0 {
+				// two alternatives of three or more names that start differently
+				a := long[r.Intn(len(long))]
+				b := a
+				for k := 0; k < 10 && b[0] == a[0]; k++ {
+					b = long[r.Intn(len(long))]
+				}
+				p.Fields = [][]string{a, b}
 			} else {
 				p.Fields = pick(r, all, 1+r.Intn(2))
 			}
